@@ -115,17 +115,6 @@ theorem nextBar_total (s : RelativeStrengthIndex F) (b : Bar F) (h : WF s) :
     ∃ r, s.nextBar b = some r ∧ WF r.1 ∧ r.1.period_fn = s.period_fn := by
   rw [nextBar_eq]; exact next_total s b.close h
 
-theorem reset_eq (s : RelativeStrengthIndex F) (h : WF s) : s.reset = some (fresh s.period) := by
-  unfold reset
-  simp [ExponentialMovingAverage.reset_eq _ h.up, ExponentialMovingAverage.reset_eq _ h.down, fresh,
-    h.up_period, h.down_period]
-
 theorem period_fn_eq (s : RelativeStrengthIndex F) : s.period_fn = s.period := rfl
-theorem display_eq (fmt : F → String) (s : RelativeStrengthIndex F) :
-    display fmt s = "RSI(" ++ toString s.period ++ ")" := rfl
-theorem default_eq : (default_ : Option (RelativeStrengthIndex F)) = some (fresh 14) := by
-  unfold default_
-  rw [new_eq]
-  simp [unwrap]
 
 end TaRs.Gen.RelativeStrengthIndex
